@@ -21,6 +21,8 @@ closed amount and removes that entry unconditionally together; the map key and t
 info.sender. K5: the frontend helper pairs TransferFrom(amount) with IncreaseAllowance(pair, amount) per cw20 asset,
 forwards info.funds, and its reply forwards the whole LP balance with receiver = the saved depositor, turning a
 failed deposit into an error.
+K6: the position lists are only edited in place: every OPEN_/CLOSED_POSITIONS.update closure returns the list it was
+given (all Vec edits applied to it) and every save stores the list loaded from the same map.
 """
 ASSUMPTIONS = [
     "cw_utils::must_pay returns the amount of the only coin sent and fails when other denoms are present",
@@ -194,6 +196,39 @@ def check_close(ctx, model):
                "position maps keyed by %s" % sorted(map(repr, k)), v.where(b))
 
 
+def check_lists_edited_in_place(ctx, model):
+    """K6: a user's position lists are only ever edited in place: every OPEN_/CLOSED_POSITIONS.update closure returns
+    the list it was given (after its pushes / removals / in-place edits) and every .save stores the list loaded from
+    the same map -- a freshly built list would drop the user's other positions while their LP stays in the contract."""
+    n = 0
+    for p in (OPEN, EXPAND, CLOSE, WITHDRAW):
+        v = ctx.view(p, "C11-K6")
+        if v is None:
+            continue
+        for item in ("incentive::state::OPEN_POSITIONS", "incentive::state::CLOSED_POSITIONS"):
+            short = item.split("::")[-1]
+            for b, t in storage_calls(v, item, ("update",)):
+                for o in v.origins_of_operand(t["args"][3], at=v.at_term(b)):
+                    if not (o.kind == "closure" and o.a in model.fnsrc):
+                        ctx.ob("C11-K6", "%s|%s|update" % (p, short), False, "update function is not a closure of this crate: %r" % o, v.where(b), kind="unrecognised")
+                        continue
+                    n += 1
+                    cv = model.view(o.a)
+                    old = lambda os_: bool(os_) and all(x.kind == "param" and x.a == 2 and not [e for e in x.proj if e != "0"] for x in os_)
+                    edits = cv.calls_to(r"^std::vec::Vec::(push|remove|insert|swap_remove|retain|clear|truncate|pop)$")
+                    recv = [sorted(map(repr, cv.origins_of_operand(et["args"][0], at=cv.at_term(eb)))) for eb, et in edits]
+                    recv_ok = all(old(cv.origins_of_operand(et["args"][0], at=cv.at_term(eb))) for eb, et in edits)
+                    ret = [x for x in cv.origins_of_place({"l": 0, "p": []}) if x.kind != "err"]
+                    ctx.ob("C11-K6", "%s|%s|update" % (p, short), recv_ok and old(ret),
+                           "closure edits %s and stores back %s (must be the previously stored list)" % (recv, sorted(map(repr, ret))), cv.where())
+            for b, t in storage_calls(v, item, ("save",)):
+                n += 1
+                val = arg_origins(v, b, t, 3)
+                ok = bool(val) and all(x.kind == "load" and x.a == item and not x.proj for x in val)
+                ctx.ob("C11-K6", "%s|%s|save" % (p, short), ok, "saves %s (must be the list loaded from %s)" % (sorted(map(repr, val)), short), v.where(b))
+    ctx.floor("C11-K6", "position list write sites", n, 5)
+
+
 def check_withdraw(ctx, model):
     v = ctx.view(WITHDRAW, "C11-K4")
     if v is None:
@@ -300,4 +335,5 @@ def run(ctx):
     check_vfs(ctx, model)
     check_close(ctx, model)
     check_withdraw(ctx, model)
+    check_lists_edited_in_place(ctx, model)
     check_frontend(ctx, model)
